@@ -21,9 +21,11 @@ MUTANTS = [
     M("rtf-empty-pages-dropped", X + "ms_legacy/rtf_extractor.py", "            # Keep empty pages too: the position in the list is the page number\n            self.pages.append(page_text)", "            if page_text:\n                self.pages.append(page_text)", "C03-FILT"),
     M("mbox-skip-empty-subject", MB, "            m = parse_email_message(message)\n", "            m = parse_email_message(message)\n            if not m.subject:\n                continue\n", "C03-FILL"),
     M("xlsx-visible-sheets-only", XL, "            metadata = _extract_metadata_from_workbook(wb)\n            sheet_names = list(wb.sheetnames)\n", "            metadata = _extract_metadata_from_workbook(wb)\n            sheet_names = [n for n in wb.sheetnames if wb[n].sheet_state == \"visible\"]\n", "C03-FILL"),
+    M("xlsx-chart-sheet-unguarded", "sharepoint2text/parsing/extractors/ms_modern/xlsx_extractor.py", "        if not hasattr(ws, \"iter_rows\"):\n", "        if False:\n", "C03-KIND"),
 ]
 MUTANTS.append(M("odp-second-title-in-no-unit", X + "open_office/odp_extractor.py", "                if not found_title and (\n                    \"Title\" in style_name or style_name == \"TitleText\"\n                ):\n                    slide.title = text\n                    found_title = True\n                elif", "                if \"Title\" in style_name or style_name == \"TitleText\":\n                    if not found_title:\n                        slide.title = text\n                        found_title = True\n                elif", "C03-COVER"))
 TWINS = [
+    T("xlsx-chart-sheet-by-isinstance", "sharepoint2text/parsing/extractors/ms_modern/xlsx_extractor.py", "        if not hasattr(ws, \"iter_rows\"):\n", "        if isinstance(ws, Chartsheet):\n"),
     T("join-inlined", D, "    def get_full_text(self) -> str:\n        return _join_unit_text(self.iterate_units())\n\n    def get_metadata(self) -> PdfMetadata:", "    def get_full_text(self) -> str:\n        return (\"\\n\".join(unit.get_text() for unit in self.iterate_units())).strip()\n\n    def get_metadata(self) -> PdfMetadata:"),
     T("enumerate-positional-start", D, "        for page_number, page in enumerate(self.pages, start=1):\n            yield PdfUnit(", "        for page_number, page in enumerate(self.pages, 1):\n            yield PdfUnit("),
 ]
